@@ -35,6 +35,7 @@ if P:
     K = PART.K
     RX = cfg.text_regexps(GRAMMAR, BNF, as_bytes=BYTES)
     MODE = 'complete' if LEXER == 'dynamic_complete' else 'longest'
+    LARK_MODE = 'lark_complete' if LEXER == 'dynamic_complete' else 'lark_dynamic'
 
 
 def worker_extra():
@@ -121,6 +122,11 @@ def _body(rec, cs):
         if 'member' in ASSERTS:
             is_member = recog.member()
             if is_member != (exc is None):
+                if FAMILY == 'dynamic':
+                    alt = cfg.Recognizer(BNF, cfg.TextInput(text, RX, ignore=GRAMMAR.ignore, mode=LARK_MODE)).member()
+                    if alt == (exc is None):
+                        # explained exactly by "re's preferred match is taken for the longest / for the only maximal one"
+                        rec['fkey'] = 'preferred-match-not-longest:%s:%s' % (P['g'], LEXER)
                 return hs.fail(rec, ('rejected a sentence' if is_member else 'accepted a non-sentence'), text=repr(text), exc=repr(exc))
         if exc is None and 'pos' in ASSERTS:
             toks = []
